@@ -1,6 +1,7 @@
 package syncsim
 
 import (
+	"bytes"
 	"context"
 	"crypto/sha1"
 	"fmt"
@@ -241,6 +242,7 @@ func genStage(p *simkit.Plan, r *simkit.Rand, tier string) {
 	c["shuffle"] = int64(r.Uint64() >> 1)
 	c["internal_staging"] = int64(r.Intn(2))
 	c["edit_between"] = int64(r.Intn(3) / 2)
+	c["second_round"] = int64(r.Intn(2))
 }
 
 func countEntries(e *core.Entry) int {
@@ -491,6 +493,54 @@ func execStage(t *testing.T, plan *simkit.Plan) *simkit.Result {
 			s.Count("probe.second_transition_refused", 1)
 		}
 		s.Logf("stage", "requested %d, needed %d", len(request), len(filtered))
+		if plan.C("second_round") == 1 && order == 0 && err == nil {
+			// A second cycle on the same endpoint: the user deletes some of the
+			// files the first one placed, and the same content is asked for at
+			// the same paths again. What the first cycle staged was wiped when
+			// its transition ended: unless another copy is in the root, the
+			// data has to be requested again.
+			var paths2 []string
+			var digests2 [][]byte
+			for i, p := range request {
+				if e := lookup(after, p); e != nil && e.Kind == core.EntryKind_File && bytes.Equal(e.Digest, digests[i]) && sr.Chance(2, 3) {
+					rmAll(filepath.Join(c.d.roots["beta"], p))
+					paths2, digests2 = append(paths2, p), append(digests2, digests[i])
+				}
+			}
+			if len(paths2) == 0 {
+				return
+			}
+			if _, err, _ := dst.Scan(ctx, nil, true); err != nil {
+				return
+			}
+			now := c.d.walkTree("beta")
+			inRoot2 := map[string]bool{}
+			walk(now, "", func(_ string, x *core.Entry) {
+				if x.Kind == core.EntryKind_File {
+					inRoot2[string(x.Digest)] = true
+				}
+			})
+			f2, sigs2, recv2, err := dst.Stage(append([]string(nil), paths2...), digests2)
+			if err != nil {
+				s.Count("probe.second_round_stage_refused", 1)
+				return
+			}
+			s.Count("probe.second_round_stagings", 1)
+			need2 := map[string]bool{}
+			for _, f := range f2 {
+				need2[f] = true
+			}
+			for i, p := range paths2 {
+				if !need2[p] && !inRoot2[string(digests2[i])] {
+					s.Violate("C41", "omitted-although-missing", "Stage-second-cycle", "second cycle: file %q (digest %x) was omitted from the staging request although nothing is staged any more (the first cycle's transition ended) and no file with that content is in the root", p, digests2[i][:4])
+				}
+			}
+			if len(f2) > 0 {
+				if err := src.Supply(f2, sigs2, recv2); err != nil {
+					s.Logf("driver", "second-cycle supply failed: %v", err)
+				}
+			}
+		}
 	})
 	res.NonTrivial = nontrivial
 	res.Fingerprint = res.JournalHash
